@@ -171,6 +171,17 @@ func c17BuildTarget(rng *rand.Rand, nProbe, nProbeN int) string {
 			site(fmt.Sprintf("probe(%s, %s)", a.src, b.src), a.generic || b.generic)
 		}
 	}
+	// function-local types of one name and different sizes (their types.Type.String() is the same text)
+	for _, body := range []string{
+		"type tc struct{ a int8 }\n\tvar v tc\n\tprobe(v, v)",
+		"type tc struct{ a [8]int64 }\n\tvar v tc\n\tprobe(v, v)",
+		"type tc struct{ a, b int32 }\n\tvar v tc\n\tvar w [2]tc\n\tprobe(v, w)",
+		"type tc [3]string\n\tvar v tc\n\tprobe(v,\n\t\tl8)",
+		"type tc struct{ a int8 }\n\tvar v tc\n\tprobeN(v, v, v)",
+		"type tc struct{ a [8]int64 }\n\tvar v tc\n\tprobeN(v, v)",
+	} {
+		site(body, false)
+	}
 	for i := 0; i < nProbeN; i++ {
 		a := pick(rng.Intn(2 * len(c17Pool)))
 		n := i % 4
@@ -296,13 +307,14 @@ func c17NewWorld(seed int64, thorough bool) (*c17World, error) {
 	}
 	for _, d := range t.File.Decls {
 		fd, ok := d.(*ast.FuncDecl)
-		if !ok || !strings.HasPrefix(fd.Name.Name, "s") || fd.Body == nil || len(fd.Body.List) != 1 {
+		if !ok || !strings.HasPrefix(fd.Name.Name, "s") || fd.Body == nil || len(fd.Body.List) == 0 {
 			continue
 		}
 		if _, err := strconv.Atoi(fd.Name.Name[1:]); err != nil {
 			continue
 		}
-		call := fd.Body.List[0].(*ast.ExprStmt).X.(*ast.CallExpr)
+		// the probe call is the last statement (sites with function-local types declare them first)
+		call := fd.Body.List[len(fd.Body.List)-1].(*ast.ExprStmt).X.(*ast.CallExpr)
 		pat := 0
 		if call.Fun.(*ast.Ident).Name == "probeN" {
 			pat = 1
